@@ -12,9 +12,11 @@ import (
 	"hash/fnv"
 	"math/rand/v2"
 	"os"
+	"regexp"
 	"runtime"
 	"sort"
 	"strconv"
+	"strings"
 	"sync"
 	"sync/atomic"
 	"testing/synctest"
@@ -32,8 +34,15 @@ type Tape struct {
 	replay bool
 }
 
+func splitmix(x uint64) uint64 {
+	x += 0x9e3779b97f4a7c15
+	x = (x ^ (x >> 30)) * 0xbf58476d1ce4e5b9
+	x = (x ^ (x >> 27)) * 0x94d049bb133111eb
+	return x ^ (x >> 31)
+}
+
 func NewTape(seed, stream uint64) *Tape {
-	return &Tape{rng: rand.New(rand.NewPCG(seed, stream))}
+	return &Tape{rng: rand.New(rand.NewPCG(splitmix(seed), splitmix(seed^(stream*0x9e3779b97f4a7c15))))}
 }
 
 func ReplayTape(in []uint32) *Tape { return &Tape{in: in, replay: true} }
@@ -145,6 +154,7 @@ type Sim struct {
 	viol      []Violation
 	failed    atomic.Bool
 	stopped   atomic.Bool
+	bypass    atomic.Int32
 	actions   []*Action
 	invariant func() // called after every quiescence
 
@@ -153,6 +163,7 @@ type Sim struct {
 	lastGid  int64
 	prio     map[int64]int
 	slowGid  map[int64]time.Time
+	labels   map[string]int
 	nontriv  atomic.Bool
 	finished bool
 	TimedOut bool
@@ -184,6 +195,7 @@ func New(seed uint64, plan, sched *Tape) *Sim {
 		polRng:   rand.New(rand.NewPCG(seed, 0x5eed)),
 		prio:     map[int64]int{},
 		slowGid:  map[int64]time.Time{},
+		labels:   map[string]int{},
 	}
 	s.Net = newNet(s)
 	return s
@@ -212,6 +224,13 @@ func (s *Sim) Probe(name string) {
 	s.mu.Unlock()
 }
 
+// ProbeCount returns how often a probe was hit so far.
+func (s *Sim) ProbeCount(name string) int {
+	s.mu.Lock()
+	defer s.mu.Unlock()
+	return s.Probes[name]
+}
+
 // Fault counts a fault that actually fired.
 func (s *Sim) Fault(name string) {
 	s.mu.Lock()
@@ -226,6 +245,11 @@ func (s *Sim) IsNontrivial() bool { return s.nontriv.Load() }
 
 // Fail records a violation; the run stops at the next scheduling step.
 func (s *Sim) Fail(property, kind, sig, format string, args ...any) {
+	if s.stopped.Load() && goid() != s.rootG {
+		// after the scheduler stopped the network is torn down; whatever
+		// application goroutines observe then is not part of the run
+		return
+	}
 	s.mu.Lock()
 	s.viol = append(s.viol, Violation{
 		Property: property, Kind: kind, Sig: sig,
@@ -271,23 +295,44 @@ func (s *Sim) After(d time.Duration, name string, f func()) {
 	s.AddAction(&Action{Name: name, At: s.Now() + d, Do: f})
 }
 
+// NoSched runs f with scheduling points disabled. Only for single-threaded
+// construction phases (e.g. building a server), where thousands of
+// uncontended lock acquisitions would otherwise be scheduling steps.
+func (s *Sim) NoSched(f func()) {
+	s.bypass.Add(1)
+	defer s.bypass.Add(-1)
+	f()
+}
+
 // Park implements simhook.Scheduler.
 func (s *Sim) Park(label string) {
-	if s.stopped.Load() {
+	if s.stopped.Load() || s.bypass.Load() > 0 {
 		return
 	}
 	g := goid()
 	if g == s.rootG {
 		return
 	}
+	if label != "mu.Lock" && label != "rw.Lock" && label != "rw.RLock" {
+		s.mu.Lock()
+		s.labels[label]++
+		s.mu.Unlock()
+	}
 	p := &parked{label: label, gid: g, rel: make(chan int, 1)}
 	s.parkCh <- p
 	<-p.rel
 }
 
+// Label returns how often a named yield point was reached.
+func (s *Sim) Label(label string) int {
+	s.mu.Lock()
+	defer s.mu.Unlock()
+	return s.labels[label]
+}
+
 // Choose implements simhook.Scheduler.
 func (s *Sim) Choose(label string, n int) int {
-	if s.stopped.Load() || n <= 1 {
+	if s.stopped.Load() || n <= 1 || s.bypass.Load() > 0 {
 		return 0
 	}
 	g := goid()
@@ -584,9 +629,29 @@ func (s *Sim) Stop() {
 // Finished reports whether the application goroutine returned.
 func (s *Sim) Finished() bool { return s.finished }
 
-// GoroutineDump returns the stacks of all goroutines.
+var bubbleRe = regexp.MustCompile(`synctest bubble \d+`)
+
+// GoroutineDump returns the stacks of all goroutines of the calling
+// goroutine's bubble (leaked goroutines of earlier runs live in other
+// bubbles and are not included).
 func GoroutineDump() string {
-	buf := make([]byte, 1<<22)
+	buf := make([]byte, 1<<24)
 	n := runtime.Stack(buf, true)
-	return string(buf[:n])
+	all := strings.Split(string(buf[:n]), "\n\n")
+	if len(all) == 0 {
+		return ""
+	}
+	hdr, _, _ := strings.Cut(all[0], "\n")
+	tag := bubbleRe.FindString(hdr)
+	if tag == "" {
+		return string(buf[:n])
+	}
+	var out []string
+	for _, g := range all {
+		h, _, _ := strings.Cut(g, "\n")
+		if strings.Contains(h, tag+"]") || strings.HasSuffix(strings.TrimSuffix(h, ":"), tag+"]") {
+			out = append(out, g)
+		}
+	}
+	return strings.Join(out, "\n\n")
 }
